@@ -3,6 +3,7 @@ package props
 
 import (
 	"fmt"
+	"github.com/grindlemire/go-lucene/pkg/driver"
 	"math/rand"
 	"reflect"
 	"strings"
@@ -40,6 +41,48 @@ func parse(ctx *core.Ctx, in string, df string) (e *expr.Expression, err error, 
 		}
 	})
 	return
+}
+
+func init() { core.BeforeCase = perturb }
+
+var perturbDriver = driver.NewPostgresDriver()
+
+// perturb makes one call from a rotating list of calls that end on error paths or use options
+// and inputs the current check does not: whatever they leave behind in the library is then
+// seen by the next cases' oracles. Their own outcome is not judged here.
+func perturb(c *core.Ctx) {
+	defer func() { _ = recover() }()
+	c.Count("perturbation_calls", 1)
+	switch (c.Index() / 8) % 14 {
+	case 0:
+		_, _ = lucene.ToPostgres("f:(\"it\" OR \"b\x00\")")
+	case 1:
+		_, _ = lucene.Parse(`a AND "b`)
+	case 2:
+		_, _ = lucene.Parse("x:1 OR !")
+	case 3:
+		_, _ = lucene.Parse("( #")
+	case 4:
+		_, _, _ = lucene.ToParameterizedPostgres("a:b~2 AND c:[1 TO")
+	case 5:
+		_, _ = lucene.Parse("go rust", lucene.WithDefaultField("title"))
+	case 6:
+		_, _ = lucene.ToPostgres("*:x")
+	case 7:
+		_, _ = lucene.ToPostgres(`a:(1 OR "1" OR 1)`)
+	case 8:
+		_, _, _ = lucene.ToParameterizedPostgres(`s:("x,y" OR "it''s" OR "\xff")`)
+	case 9:
+		_, _ = perturbDriver.Render(&expr.Expression{Op: expr.Fuzzy, Left: expr.Lit("x")})
+	case 10:
+		_, _ = lucene.Parse(strings.Repeat("(", 40) + "a")
+	case 11:
+		_, _ = lucene.ToPostgres("NOT /(/ OR a:[z TO")
+	case 12:
+		_, _ = lucene.Parse("title:go rust")
+	case 13:
+		_, _, _ = perturbDriver.RenderParam(&expr.Expression{Op: expr.In, Left: expr.Lit(expr.Column("a")), Right: expr.Lit("not a list")})
+	}
 }
 
 func deepEqual(a, b *expr.Expression) bool { return reflect.DeepEqual(a, b) }
